@@ -17,6 +17,8 @@ LAYOUTS = {
     "nest": ["A", None, "AB", "|", "BA", "A", None],
     # label values that differ only in type (int 1 vs str "1")
     "types": ["i1", "s1", "i1", None, "s1", "i1"],
+    # booleans next to the equal numbers (True == 1, False == 0 in Python)
+    "bools": ["i1", "b1", "i1", "b1", None, "i0", "b0", "b0"],
     # two child lists (x, y) next to the root list's own shards
     "nest2": ["A", None, "|", "B", "A", "A", "|", None, "B", "B"],
     # a later session into x / into y dies before it is merged
@@ -47,6 +49,10 @@ def label(g):
         return {"g": 1}
     if g == "s1":
         return {"g": "1"}
+    if g in ("b1", "b0"):  # JSON true / false next to the numbers 1 / 0
+        return {"g": g == "b1"}
+    if g == "i0":
+        return {"g": 0}
     return {"g": g}
 
 
@@ -148,8 +154,11 @@ def case(args) -> dict:
         # sanity: the listing really has the intended groups
         def gname(md):
             g = md.get("g")
-            return {1: "i1", "1": "s1"}.get(g, g) if not isinstance(
-                g, bool) else g
+            if isinstance(g, bool):
+                return "b1" if g else "b0"
+            if isinstance(g, int):
+                return {1: "i1", 0: "i0"}.get(g, g)
+            return {"1": "s1"}.get(g, g)
 
         listed = [(gname(s.custom_metadata), s.number_of_examples)
                   for s in ds_.shard_info_iterator("train")]
@@ -264,7 +273,7 @@ def run(ctx):
     from vf import rustbuild
     rustbuild.ensure_ext()
     tasks = [("fb", "g6"), ("fb", "g5"), ("npz", "g6"), ("tfrec", "g5"),
-             ("fb", "one"), ("fb", "nest"), ("npz", "nest"), ("fb", "types"),
+             ("fb", "one"), ("fb", "nest"), ("npz", "nest"), ("fb", "types"), ("fb", "bools"), ("npz", "bools"),
              ("fb", "nest2"), ("tfrec", "nest2"), ("fb", "stale-x"),
              ("fb", "stale-y"), ("npz", "stale-y"), ("fb", "bushy"),
              ("npz", "bushy"), ("fb", "bushy2")]
